@@ -77,6 +77,10 @@ def verify_function(key, tier='quick', keep_terms=False, discharge=True):
                 if ty.kind == 'fn':
                     env[p] = Val(T.FN, FnV('param', p))
                     continue
+                if p == c.vararg and ty.kind == 'tuple':
+                    # *args verified for positional arguments of the stated types
+                    env[p] = Val(T.Ty('xtuple'), tuple(st.fresh_val(a, '%s%d' % (p, i)) for i, a in enumerate(ty.args)))
+                    continue
                 if ty.kind == 'xtuple':
                     # *args: verified for the stated number of positional arguments (each of any type)
                     n = int(ty.name or '0')
@@ -130,8 +134,10 @@ def verify_function(key, tier='quick', keep_terms=False, discharge=True):
                 for i, en in enumerate(c.ensures):
                     g = E.spec_bool(st, en, envr)
                     st.prove('post#%d' % i, g, kind='post', lineno=st.lineno)
+                envc = dict(st.locals)       # internal checks may mention the function's locals
+                envc.update(envr)
                 for i, en in enumerate(getattr(c, 'checks', [])):
-                    g = E.spec_bool(st, en, envr)
+                    g = E.spec_bool(st, en, envc)
                     st.prove('check#%d' % i, g, kind='post', lineno=st.lineno)
                 ex.exits['normal'] += 1
                 if st.feasible(z3.BoolVal(True)):
